@@ -217,6 +217,14 @@ def Wave.lineRangesIncl (w : Wave) (P : Nat) : Option (Option (List (Int × Int)
     | a :: b :: _ => some (some (tsMin.map fun t => (t, t + (b - a))))
     | _ => some none
 
+/-- `line_timestamp_ranges(include_dead_time=True)` after the repair of finding F22: a kymograph with a
+    single line has no line period, so its range is the exclusive one (its own exposure) instead of an
+    `IndexError`; with two or more lines nothing changes. -/
+def Wave.lineRangesInclFixed (w : Wave) (P : Nat) (δ : Int) : Option (Option (List (Int × Int))) :=
+  match w.lineRangesIncl P with
+  | some none => (w.lineRangesExcl P δ).map some
+  | r => r
+
 /-- `np.argmax(mask)`: index of the first `true`, `0` when there is none. -/
 def argmaxBool (p : Nat → Bool) (l : List Nat) : Nat :=
   let i := l.findIdx p
@@ -392,7 +400,7 @@ def handle : List String → Option String
     else some (guardEmpty w (showErr showRanges "ValueError" (w.lineRangesExcl p (deltaTs w.dt))) ++ " " ++ toString (deltaTs w.dt))
   | ["c03.krin", st, dt, iw, p] => do
     let w ← mkWave? st dt iw; let p ← nat? p
-    if p = 0 then none else some (guardEmpty w (showRanges2 (w.lineRangesIncl p)))
+    if p = 0 then none else some (guardEmpty w (showRanges2 (w.lineRangesInclFixed p (deltaTs w.dt))))
   | ["c03.klt", st, dt, iw, p] => do
     let w ← mkWave? st dt iw; let p ← nat? p
     if p = 0 then none else some (showErr showInt "RuntimeError" (w.lineTimeNs p))
